@@ -198,7 +198,8 @@ func newRegSpec(r *RNG, format string, credAlg int) *RegSpec {
 	}
 	if r.P(1, 4) {
 		s.Flags |= 0x80
-		s.Ext = cborMap(cborText("credProtect"), cborUint(uint64(1+r.Intn(3))))
+		s.Ext = pick(r, [][]byte{cborMap(cborText("credProtect"), cborUint(uint64(1+r.Intn(3)))), cborMap(cborText("hmac-secret"), []byte{0xf5}, cborText("credProtect"), cborUint(2)),
+			cborMap(cborText("credBlob"), []byte{0xf5}, cborText("minPinLength"), cborUint(4)), cborMap(cborText("hmac-secret"), []byte{0xf4}), cborMap(cborText("largeBlobKey"), cborBytes(r.Bytes(32))), cborMap()})
 	}
 	if r.P(1, 2) {
 		s.Algs = append([]int{algES256, algRS256, algEdDSA}, credAlg)
